@@ -60,8 +60,6 @@ Definition m_check (T : tree) (cst : var) (f : formula atom) : res bool :=
            no_strategy2 T cst f.
 Definition m_legacy (T : tree) (f : formula atom) : res TV :=
   eval_legacy atom atom_free (fun _ => false) atom_eval no_qmm no_reach no_count_open T f [].
-Definition m_kvac (T : tree) (cst : var) (f : formula atom) : bool :=
-  K_vacuous_forall atom atom_free atom_inst T cst f.
 Definition s_sat (T : tree) (cst : var) (f : formula atom) : bool :=
   satb T atom_dec 0 (upd env_empty cst (VPos [])) f.
 Definition wide_tree (T : tree) : bool := existsb (fun ps => K_wide (fst ps)) (nodes T).
